@@ -20,6 +20,7 @@ var registry = map[string]func(*rules.Ctx){
 	"C04": rules.C04,
 	"C05": rules.C05,
 	"C06": rules.C06,
+	"C09": rules.C09,
 	"C12": rules.C12,
 	"C15": rules.C15,
 }
